@@ -1,18 +1,27 @@
 #!/bin/bash
-# run every seeded change against its property's quick check (scratch worktrees; /repo untouched) and record the outcome in meta.json
+# tools/seed_matrix.sh [names...] : run seeded changes against their property's quick check (and any further checks
+# listed in seeded/<name>/checks.txt) in scratch worktrees (/repo untouched) and record the outcome in meta.json
 cd "$(dirname "$0")/.."
-for d in seeded/*/; do
-  n=$(basename $d); p=${n%%-*}
-  out=$(VERIF_PROCS=${VERIF_PROCS:-8} tools/seed_run.sh $n $p 2>&1 | grep -v "^LOG\|^main")
-  rc=$(echo "$out" | sed -n 's/.*exit=\([0-9]*\).*/\1/p' | head -1)
-  det=$(echo "$out" | grep -E "replay :|detail" | head -1 | sed 's/^ *replay : //' | cut -c1-300)
-  echo "$n exit=$rc :: $det"
-  /venv/bin/python - "$d/meta.json" "$rc" "$det" "$p" <<'PY'
+names="$@"; [ -z "$names" ] && names=$(ls seeded)
+for n in $names; do
+  d=seeded/$n; p0=${n%%-*}
+  props=$p0; [ -f $d/checks.txt ] && props=$(cat $d/checks.txt)
+  /venv/bin/python - "$d/meta.json" <<'PY'
+import json,sys
+m=json.load(open(sys.argv[1])); m['detected_by']=[]; json.dump(m,open(sys.argv[1],'w'),indent=1)
+PY
+  for p in $props; do
+    out=$(VERIF_PROCS=${VERIF_PROCS:-8} tools/seed_run.sh $n $p 2>&1 | grep -v "^LOG\|^main")
+    rc=$(echo "$out" | sed -n 's/.*exit=\([0-9]*\).*/\1/p' | head -1)
+    det=$(echo "$out" | grep -E "^ *replay :" | head -1 | sed 's/^ *replay : //' | cut -c1-300)
+    echo "$n vs $p exit=$rc :: $det"
+    /venv/bin/python - "$d/meta.json" "$rc" "$det" "$p" <<'PY'
 import json,sys
 p,rc,det,prop=sys.argv[1:5]
 m=json.load(open(p))
-m['detected_by']={'check':'./vcheck %s --tier quick'%prop,'exit_code':int(rc) if rc.isdigit() else None,
-  'outcome':{'1':'VIOLATION reported (counterexample replayed on the real library)','0':'MISSED (check passed)','3':'INCONCLUSIVE (no verdict)'}.get(rc,'?'),'replay_detail':det}
+m['detected_by'].append({'check':'./vcheck %s --tier quick'%prop,'exit_code':int(rc) if rc.isdigit() else None,
+  'outcome':{'1':'VIOLATION reported (counterexample replayed on the real library)','0':'MISSED (check passed)','3':'INCONCLUSIVE (no verdict)'}.get(rc,'?'),'replay_detail':det})
 json.dump(m,open(p,'w'),indent=1)
 PY
+  done
 done
